@@ -430,6 +430,10 @@ def run(repo, rep):
                                       "`op.run_on_npu = False` for convolutions whose int8 / int16 weights have a non-zero zero point is enforced but appears in no constraint list and not in the report")
                         elif key in allowed:
                             rep.ok("C16-d", f"ethosu/vela/{m.name}.py:{q}", f"{norm(node)[:90]}", allowed[key])
+                        elif (isinstance(node, ast.Assign) and isinstance(node.value, ast.Call) and str(call_name(node.value) or "").endswith("tflite_supported_operators.is_operator_supported")
+                              and len(node.value.args) == 1 and str(norm(node.value.args[0])) == str(norm(t.value))):
+                            # the verdict of the supported-operator check on the very object it is stored in: the checker's own decision
+                            rep.ok("C16-d", f"ethosu/vela/{m.name}.py:{q}", f"{norm(node)[:90]}", "verdict of is_operator_supported on the same operator")
                         elif fresh:
                             rep.ok("C16-d", f"ethosu/vela/{m.name}.py:{q}", f"{norm(node)[:90]}", "freshly created operation")
                         else:
